@@ -77,7 +77,13 @@ def gen_cases(tier, rng):
         case = {"n_intf": n_intf, "workers": w, "steps": steps, "seed": rng.randint(0, 10**6),
                 "schedule": [rng.randint(0, w - 1) for _ in range(steps)], "moves": moves, "kind": "random"}
         if "wf" in moves and rng.random() < 0.5:
-            case["cap"] = n_intf - rng.choice([0.75, 0.5])
+            # orders are integers: a cap below n_intf - 1 is the only kind that changes anything
+            case["cap"] = n_intf - rng.choice([1.25, 1.25, 0.75, 0.5])
+            if case["cap"] < n_intf - 1:
+                # ... and then the region [interface, cap) of the top ensemble holds no lattice point
+                moves[-1] = "sh"
+                if "wf" not in moves:
+                    moves[1] = "wf"
         if rng.random() < 0.4:
             case["multi_engine"] = rng.choice([2, 3])
         if rng.random() < 0.5:
